@@ -763,6 +763,24 @@ def explore_regions(res, tier, run=True):
             res.violation(ID, 'wrong_exception', case, f'Regions({arg}) raised {out}')
         elif not must and out != 'ok':
             res.violation(ID, 'valid_rejected', case, f'Regions({arg}) raised {out}')
+    # the argument itself: something that is not a collection of regions is rejected, whatever its truth value
+    for name, arg in [('ctor_arg_none', None), ('ctor_arg_zero', 0), ('ctor_arg_false', False), ('ctor_arg_int', 5),
+                      ('ctor_arg_float', 2.5), ('ctor_arg_region', 'REGION'), ('ctor_arg_dict_bad', {'a': 1}), ('ctor_arg_npzero', np.int64(0))]:
+        res.transitions += 1
+        res.evaluations += 1
+        case = {'cls': 'Regions', 'via': 'ctor_arg', 'name': name}
+        a = V('reg_pix') if arg == 'REGION' else arg
+        try:
+            got = Regions(a)
+            out = 'ok'
+        except Exception as exc:
+            out = 'raise:' + _ename(exc)
+        if out == 'ok':
+            res.violation(ID, 'nonregion_accepted', case, f'Regions({arg!r}) accepted and holds {len(got.regions)} regions')
+        elif out.split(':')[1] not in ('TypeError', 'ValueError'):
+            res.violation(ID, 'wrong_exception', case, f'Regions({arg!r}) raised {out}')
+        else:
+            res.nontriv(('regions_ctor_arg', name))
 
 
 # ------------------------------------------------------------------ driver --
